@@ -998,7 +998,7 @@ impl Slot9 {
     fn argv(&self, s: &S9) -> Vec<String> {
         let mut a = vec![cli_bin().to_string_lossy().into_owned(), "sync".into(), "-r".into(), "--jobs".into(), "1".into()];
         match s.flag {
-            "delete" => a.push("--delete".into()),
+            "delete" | "delete-long" => a.push("--delete".into()),
             "exclude" => {
                 a.push("--exclude".into());
                 a.push("o1".into());
@@ -1082,10 +1082,37 @@ fn s9_prepare(slot: &Slot9, s: &S9, seed: u64) {
                 write_files(&slot.dst(), &[(p, other)]);
                 crate::c19::set_mtime(&slot.dst().join(p), 1_500_000_001, 0);
             }
+            "insync" => {
+                write_files(&slot.dst(), &[(p, b.clone())]);
+                crate::c19::set_mtime(&slot.dst().join(p), 1_600_000_000 + i as i64, 7);
+            }
             _ => {}
         }
     }
-    if s.flag == "delete" {
+    if s.flag == "delete-long" {
+        // a delete list far longer than a pipe buffer (and than any chunk a sender might cut it into): ~1000 stale
+        // names of equal length. Wherever a cut at a multiple of 4096 bytes falls inside a name, an IN-SYNC file
+        // (outside the plan) is given exactly the name that an unterminated tail of the list would spell.
+        let names: Vec<String> = (0..1000).map(|i| format!("stale-{i:04}-{}", "x".repeat(100))).collect();
+        for n in &names {
+            write_files(&slot.dst(), &[(n.as_str(), b"stale".to_vec())]);
+        }
+        let root = slot.dst().to_string_lossy().into_owned();
+        let entry = root.len() + 1 + names[0].len() + 1;
+        let total = entry * names.len();
+        let mut c = 4096usize;
+        while c < total {
+            let (j, o) = (c / entry, c % entry);
+            if o > root.len() + 1 && o < entry - 1 {
+                let live = &names[j][..o - (root.len() + 1)];
+                for r in [slot.src(), slot.dst()] {
+                    write_files(&r, &[(live, b"in sync, not in the plan".to_vec())]);
+                    crate::c19::set_mtime(&r.join(live), 1_599_000_000, 0);
+                }
+            }
+            c += 4096;
+        }
+    } else if s.flag == "delete" {
         write_files(&slot.dst(), &[("stale.txt", b"stale".to_vec()), ("d/stale2", b"s2".to_vec())]);
     } else {
         write_files(&slot.dst(), &[("keep.txt", b"destination only, no --delete".to_vec())]);
@@ -1141,7 +1168,7 @@ fn c09_state_check(s: &S9, src0: &Meta, dst0: &Meta, src_now: &Meta, dst_now: &M
     }
     for p in dst0.keys().filter(|p| !is_staging(p)) {
         if !dst_now.contains_key(p) {
-            let deletable = s.flag == "delete" && !src0.contains_key(p);
+            let deletable = (s.flag == "delete" || s.flag == "delete-long") && !src0.contains_key(p);
             if !deletable {
                 return Some(("destination_removed".into(), format!("destination {p} existed before the run and is gone")));
             }
@@ -1242,11 +1269,14 @@ pub fn run_c09(ctx: &Ctx) -> ! {
                 }
             }
         }
+        scs.push(S9 { dir: "push", dst: "insync", flag: "delete-long" });
+        scs.push(S9 { dir: "pull", dst: "insync", flag: "delete-long" });
     } else {
         for dir in ["local", "pull", "push"] {
             scs.push(S9 { dir, dst: "mixed", flag: "delete" });
         }
         scs.push(S9 { dir: "push", dst: "diffsize", flag: "exclude" });
+        scs.push(S9 { dir: "push", dst: "insync", flag: "delete-long" });
         scs.push(S9 { dir: "local", dst: "absent", flag: "none" });
         scs.push(S9 { dir: "pull", dst: "absent", flag: "none" });
     }
@@ -1261,6 +1291,8 @@ pub fn run_c09(ctx: &Ctx) -> ! {
                 }
             }
         }
+        all.push(S9 { dir: "push", dst: "insync", flag: "delete-long" });
+        all.push(S9 { dir: "pull", dst: "insync", flag: "delete-long" });
         scs = all.into_iter().filter(|s| s9_name(s) == want).collect();
     }
     let evals = AtomicU64::new(0);
